@@ -69,6 +69,9 @@ def execute(desc):
     # unwound) no FINISHED transaction state machine may still sit in the scheduler
     h.timer_residue = []
     w.outcome_hooks.append(lambda seq: w.after(0.0, _inspect_timers, h, seq))
+    # follow-up requests an application submits from INSIDE its outcome callback
+    h.chains = {}
+    w.outcome_tok_hooks.append(lambda label, tok: _chain(h, label, tok))
 
     if desc.get('iam'):
         for name in sorted(h.stacks):
@@ -94,6 +97,13 @@ def execute(desc):
 
 def _noop():
     pass
+
+
+def _chain(h, label, tok):
+    op = h.chains.pop(tok, None)
+    if op is not None and op['c'] == label:
+        h.w.probe('chained_request')
+        _do_op(h, op)
 
 
 def _inspect_timers(h, seq):
@@ -149,6 +159,8 @@ def _do_op(h, op):
         r.t = w.now
         h.reqs.append(r)
         h.by_tok[r.tok] = r
+        if op.get('chain'):
+            h.chains[r.tok] = op['chain']
         if op['s'] in h.stacks:
             h.stacks[op['s']].app.resp_plan[r.tok] = (r.rs, r.slow)
         req = c.app.make_request(scfg['addr'], r.tok, r.rq, r.forced)
